@@ -24,6 +24,17 @@ TYPES = {"int": ("int", "i", "I"), "long": ("long", "i", "I"), "double": ("doubl
 RET = ["void", "int", "double", "bool", "string"]
 DEFAULTS = {"int": "7", "long": "8", "double": "2.5", "bool": "true", "string": '"dflt"'}
 DEFLOG = {"int": "7", "long": "8", "double": "2.5", "bool": "true", "string": "[dflt]"}
+# odd parameter positions take the ZERO-like default of the type
+ZDEFAULTS = {"int": "0", "long": "0", "double": "0.0", "bool": "false", "string": '""'}
+ZLOG = {"int": "0", "long": "0", "double": "0", "bool": "false", "string": "[]"}
+
+
+def dflt(t, i):
+    return ZDEFAULTS[t] if i % 2 else DEFAULTS[t]
+
+
+def dlog(t, i):
+    return ZLOG[t] if i % 2 else DEFLOG[t]
 RETVAL = {"int": "41", "double": "1.25", "bool": "true", "string": 'std::string("res")'}
 PYRET = {"void": "None", "int": "41", "double": "1.25", "bool": "True", "string": "'res'"}
 
@@ -111,7 +122,7 @@ def cxx_params(ps, with_defaults, outs=(), yaml=False):
         t, d = ps[i]
         s = "%s a%d" % (TYPES[t][0], i) + (" +intent(inout)" if (yaml and t == "ioint") else "")
         if d and with_defaults:
-            s += " = " + DEFAULTS[t]
+            s += " = " + dflt(t, i)
         out.append(s)
     return ", ".join(out)
 
@@ -192,6 +203,15 @@ def write_library(lib, d):
     ydecl.append({"decl": "int *get_table(int nrow, int ncol) +dimension(nrow+1,ncol)"})
     ydecl.append({"decl": "void fill_table(int nrow, int ncol, int *out +intent(out)+dimension(nrow+1,ncol))"})
     ydecl.append({"decl": "int *get_row(int ncol) +dimension(ncol+1)"})
+    # list arguments of narrow element types: an element that is not a number is a TypeError, never a silent value
+    hpp.append("#include <cstdint>")
+    hpp.append("int sum_u16(const uint16_t *a0, int a1); int sum_u8(const uint8_t *a0, int a1); double sum_d(const double *a0, int a1);")
+    cpp.append('int sum_u16(const uint16_t *a0, int a1) { long t = 0; for (int i = 0; i < a1; ++i) t += a0[i]; std::printf("LOG sum_u16 %d %ld\\n", a1, t); return 41; }')
+    cpp.append('int sum_u8(const uint8_t *a0, int a1) { long t = 0; for (int i = 0; i < a1; ++i) t += a0[i]; std::printf("LOG sum_u8 %d %ld\\n", a1, t); return 41; }')
+    cpp.append('double sum_d(const double *a0, int a1) { double t = 0; for (int i = 0; i < a1; ++i) t += a0[i]; std::printf("LOG sum_d %d %g\\n", a1, t); return 1.25; }')
+    ydecl.append({"decl": "int sum_u16(const uint16_t *a0 +rank(1), int a1 +implied(size(a0)))"})
+    ydecl.append({"decl": "int sum_u8(const uint8_t *a0 +rank(1), int a1 +implied(size(a0)))"})
+    ydecl.append({"decl": "double sum_d(const double *a0 +rank(1), int a1 +implied(size(a0)))"})
     hpp.append("class Cls { public:")
     cdecl = []
     for k, f in enumerate(lib["cls"]):
@@ -341,8 +361,9 @@ def expected(m, group, pos, kw):
         else:
             line += " <uninit>"
             uninit = True
-    for (t, _) in f["params"][int(n):]:
-        line += " " + DEFLOG[t]
+    for i_, (t, _) in enumerate(f["params"]):
+        if i_ >= int(n):
+            line += " " + dlog(t, i_)
     return [line, "RET " + pyret(f, passed)], (line if uninit else None)
 
 
@@ -361,7 +382,7 @@ def oracle(group, pos, kw, kind, got):
         vals = valid_for(f, pos, kw)
         if vals is None:
             continue
-        line = "LOG " + f["tag"] + "".join(" " + (conv(t, v) if v is not None else DEFLOG[t]) for (t, _), v in zip(f["params"], vals))
+        line = "LOG " + f["tag"] + "".join(" " + (conv(t, v) if v is not None else dlog(t, i_)) for i_, ((t, _), v) in enumerate(zip(f["params"], vals)))
         if line not in got:
             skipped = any(v is None for v in vals[:max([i for i, v in enumerate(vals) if v is not None] + [-1]) + 1])
             return {"what": "the library did not receive the documented argument values: expected %r" % line, "class": "values",
@@ -446,7 +467,11 @@ def run(ctx):
                  ("get_table", [1, 4], {}, ["LOG get_table 1 4", "RET " + repr([300 + i for i in range(8)])]),
                  ("fill_table", [2, 3], {}, ["LOG fill_table 2 3", "RET " + repr([500 + i for i in range(9)])]),
                  ("fill_table", [0, 2], {}, ["LOG fill_table 0 2", "RET " + repr([500, 501])]),
-                 ("get_row", [4], {}, ["LOG get_row 4", "RET " + repr([700 + i for i in range(5)])])]
+                 ("get_row", [4], {}, ["LOG get_row 4", "RET " + repr([700 + i for i in range(5)])]),
+                 ("sum_u16", [[1, 2, 65535]], {}, ["LOG sum_u16 3 65538", "RET 41"]), ("sum_u16", [[1, "two", 3]], {}, ["EXC"]),
+                 ("sum_u16", [], {0: [None]}, ["EXC"]), ("sum_u8", [[255, 1]], {}, ["LOG sum_u8 2 256", "RET 41"]),
+                 ("sum_u8", [[7, [], 3]], {}, ["EXC"]), ("sum_d", [[0.5, 2]], {}, ["LOG sum_d 2 2.5", "RET 1.25"]),
+                 ("sum_d", [[0.5, "x"]], {}, ["EXC"]), ("vsum", [[1, "two", 3]], {}, ["EXC"])]
         inp = "\n".join(json.dumps({"name": n, "method": m, "pos": pos, "kw": {("zz" if k == "zz" else "a%d" % k): v for k, v in kw.items()}})
                         for (n, m, _, pos, kw, _) in queries + [(n_, False, None, p_, k_, "extra") for (n_, p_, k_, _) in extra]) + "\n"
         p = subprocess.run([vlib.PY, os.path.join(d, "runner.py"), d], input=inp, stdout=subprocess.PIPE, stderr=subprocess.PIPE,
